@@ -104,3 +104,10 @@ package federation
 //@   loop 2 invariant forall s string :: visited[s] ==> seenVal[s]
 //@   ensures (v is map[string]interface{}) ==> (forall s string :: (s in v.(map[string]interface{})) ==> seenVal[s])
 //@   ensures (v is []interface{}) ==> (forall i int :: 0 <= i && i < len(v.([]interface{})) ==> seenElem[i])
+
+// ---- C14 / C06 (a federated sub-request): the root type is chosen by the kind of the operation; the sub-query is validated
+// against the type it is executed against, and it is the validated query that is executed.
+//@ func ExecuteRequest
+//@   call PrepareQuery assert arg1 == schema && arg2 == query.SelectionSet && (query.Kind == "mutation" ==> schema == gqlSchema.Mutation) && (query.Kind == "query" ==> schema == gqlSchema.Query)
+//@ func ExecuteRequest$1
+//@   call Execute assert arg2 == schema && arg4 == query
